@@ -275,7 +275,8 @@ def run_case(case, ctx):
         nontrivial = False
         for i, op in enumerate(case['ops']):
             name = op[0]
-            sig = {'impl': lv.impl, 'kind': lv.kind, 'op': name, 'hook': hook}
+            sig = {'impl': lv.impl, 'kind': lv.kind, 'op': name, 'hook': hook,
+                   'prior_insweep': bool(getattr(lv, 'incmp_sweeps', 0))}
             desc = 'step %d %r on %s%s(%s, sizes %s)' % (i, op, lv.fam, lv.kind, lv.impl, cfg.get('sizes'))
             if name == 'commit':
                 lv.conn.commit()
